@@ -135,6 +135,7 @@ def plan(seed, subbatch):
             out.append({"op": "check"})
     if out[-1]["op"] != "check":
         out.append({"op": "check"})
+    config["sim_now"] = planlib.pick_sim_now(sub_rng(seed, "sim-now"), rows)
     return {"format": 1, "property": ID, "seed": seed, "subbatch": subbatch, "config": config,
             "ops": out, "fired": dict(fired)}
 
